@@ -152,14 +152,24 @@ def floatOps (lits : List (String × Float)) : Ops Float where
     | "abs" => (args.headD 0.0).abs
     | _ => 0.0
 
+/-- Python evaluates an operator on integer literals in integer arithmetic (no negative zero, no rounding); the
+    float instance does not model that, so such statements are left to the Python-side oracle. -/
+def isIntLit (s : String) : Bool := s.toList.all Char.isDigit
+
+def intTyped : Expr SAtom → Bool
+  | .num s => isIntLit s
+  | .neg e => intTyped e
+  | .bin op l r => (op == .add || op == .sub || op == .mul) && intTyped l && intTyped r
+  | _ => false
+
 mutual
 def supported (lits : List (String × Float)) : Expr SAtom → Bool
   | .num s => (lits.lookup s).isSome
   | .atom _ => true
   | .verb _ => false
-  | .neg e => supported lits e
+  | .neg e => !intTyped e && supported lits e
   | .not e => supported lits e
-  | .bin op l r => op != .pow && supported lits l && supported lits r
+  | .bin op l r => op != .pow && !(intTyped l && intTyped r) && supported lits l && supported lits r
   | .and l r => supported lits l && supported lits r
   | .or l r => supported lits l && supported lits r
   | .call f args => (replaceFn f == "max" || replaceFn f == "min" || (replaceFn f == "abs" && nargs args == 1)) && supportedA lits args
